@@ -55,7 +55,10 @@ def disk_undirected(H, spec):
         if a != b:
             bad("json", f"write_json/read_json: {_fd(a, b)}")
     # text formats
+    texts = [str(x) for x in list(H.nodes) + list(H.edges)]
     for d in DELIMS:
+        if any(d in t for t in texts):
+            continue  # the property is about delimiters that cannot occur in a label
         if not has_empty and len(mem):
             p = _p("el.txt")
             xgi.write_edgelist(H, p, delimiter=d)
@@ -197,6 +200,13 @@ def family(tier):
     # node labels and edge IDs whose text coincides, to be read back with two different casts
     items += [("H", F.H([[1, 2], [2, 3], [1, 3]], ids=["1", "2", "7"])), ("H", F.H([["1", "2"], ["2", "x"]], ids=[1, 2])),
               ("H", F.H([[0, 1, 2], [2, 3]], ids=["0", "3"], nodes=[0, 1, 2, 3]))]
+    # string labels that contain another delimiter's character (blank, comma, tab, ...): every delimiter that does not
+    # occur in a label must still separate exactly the labels
+    for k, ch in enumerate([" ", ",", "\t", ";", "|", ":", "-", "."]):
+        for s in base[k::(16 if q else 8)]:
+            nm = {n: f"a{ch}b{n}" for n in s["nodes"]}
+            m = len(s["edges"])
+            items.append(("H", F.relabel(s, node_map=nm, edge_ids=[f"e{ch}{ch}{i}" for i in range(m)])))
     # single-row / single-column matrices explicitly
     items += [("H", F.H([[1]])), ("H", F.H([[1], [1]])), ("H", F.H([[1, 2, 3]])), ("H", F.H([[1], [1], [1]])),
               ("H", F.H([[1, 2]], nodes=[1, 2, 3]))]
